@@ -1,7 +1,10 @@
 """C01 completeness: the recorded witness satisfies every emitted constraint."""
+import os
+import sys
+
 from hypothesis import given, strategies as st
 
-from harness import core, ir, r1cs
+from harness import core, env, ir, r1cs
 from harness.recorder import REAL_FIELDS
 
 RULE = ("programs of 1-14 statements drawn model-guided over the public API (ops of LinComb, LinCombBool, "
@@ -198,7 +201,52 @@ def failure_shard(b, p):
     return stats
 
 
+EXAMPLES = [("compare.py", []), ("cube.py", ["3"]), ("cube.py", ["-7"]), ("factorial.py", []), ("test2.py", []), ("testarray.py", []), ("bench.py", [])]
+# (the other example scripts are written for an older API - pysnark.hash, assert_bool, _ifelse - or need scipy / libsnark / oblif)
+
+
+def examples_shard():
+    """the repository's own example programs that run on this tree (multi-step computations written by the authors): traced on the
+    recorder, they finish and the recorded witness satisfies every constraint"""
+    import contextlib, io, runpy
+    from harness import backends
+    stats = core.Stats()
+    for name, argv in EXAMPLES:
+        path = os.path.join(backends.REPO, "examples", name)
+        case = {"part": "example", "name": name, "argv": argv}
+        if not os.path.exists(path):
+            stats.inconclusive["example-missing"] += 1
+            continue
+        ns = env.reset(ir.resolve_p("bn128"), 16, 8)
+        ns.rt.autoprove = False
+        old_argv, old_cwd = sys.argv, os.getcwd()
+        sys.argv = [path] + list(argv)
+        os.chdir(os.path.dirname(path))
+        msg = None
+        try:
+            with contextlib.redirect_stdout(io.StringIO()), contextlib.redirect_stderr(io.StringIO()):
+                runpy.run_path(path, run_name="__main__")
+        except SystemExit:
+            pass
+        except Exception as e:
+            msg = "examples/%s %s raised %s: %s" % (name, " ".join(argv), type(e).__name__, e)
+        finally:
+            sys.argv = old_argv
+            os.chdir(old_cwd)
+        if msg is None:
+            bad = r1cs.evaluate(ns.rec.cons, ns.rec.vals, ns.rec.P)
+            if bad:
+                msg = "examples/%s %s: constraint #%d of %d is violated by the recorded witness" % (name, " ".join(argv), bad[0], len(ns.rec.cons))
+        stats.case(case, True, ("example:" + name,))
+        if msg:
+            stats.violations.append({"case": case, "msg": msg, "key": "example." + name})
+    return stats
+
+
 def replay(case):
+    if case.get("part") == "example":
+        st_ = examples_shard()
+        return "; ".join(v["msg"] for v in st_.violations if v["case"]["name"] == case["name"]) or None
     if case.get("part") == "history":
         from harness.checks import c15
         return c15.replay(case)
@@ -240,6 +288,7 @@ def run(ctx):
     total.extra["cell_sweep"] = {"cells": len(cells), "modes": MODES, "grids": [list(g) for g in grids]}
     total.merge_json(core.run_shards_optimised("harness.checks.c01", "shard", [dict(seed=ctx.seed * 1000 + 800 + i, n_examples=60) for i in range(4)]).to_json())
     total.merge_json(core.run_shards("harness.checks.c01", "failure_shard", [dict(b=b_, p=p_) for b_, p_ in ((3, "bn128"), (8, "bls12-381"))]).to_json())
+    total.merge_json(core.run_shards("harness.checks.c01", "examples_shard", [dict(), dict()][:1]).to_json())
     # scale: completeness of secret-index reads and writes on arrays of 31 ... 257 elements and 65x2 / 2x65 matrices (the histories
     # of C15's long-array part; here only "the recorded witness satisfies every emitted constraint" is at stake)
     from harness.checks import c15
